@@ -82,10 +82,12 @@ Qed.
 
 Lemma hook_effect_in : forall q s h m a,
   In (m, a) (hook_effect q s h) ->
-  q_hooks_run q = true /\ a = AHook /\ In m (s_members s) /\ exists h', m_kind m = KHook h'.
+  hooks_on q = true /\ a = AHook /\ In m (s_members s) /\ exists h', m_kind m = KHook h'.
 Proof.
   unfold hook_effect. intros q s h m a H.
-  destruct (q_hooks_run q); [|destruct H].
+  assert (F : hook_flag q h = true -> hooks_on q = true).
+  { unfold hook_flag, hooks_on. destruct h; intros X; rewrite X; auto using orb_true_r. }
+  destruct (hook_flag q h); [|destruct H]. specialize (F eq_refl).
   destruct (find_hook s h) as [m0|] eqn:E; [|destruct H].
   destruct H as [H|[]]. inversion H; subst. apply find_hook_some in E. tauto.
 Qed.
@@ -141,7 +143,7 @@ Qed.
 Lemma get_attribute_sound : forall q s n e r,
   repaired q -> get_attribute q s n = (e, r) ->
   (forall m a, In (m, a) e ->
-     q_hooks_run q = true /\ a = AHook /\ In m (s_members s) /\ (exists h, m_kind m = KHook h) /\
+     hooks_on q = true /\ a = AHook /\ In m (s_members s) /\ (exists h, m_kind m = KHook h) /\
      exists t, n = NStr t /\ is_private t = false) /\
   (forall m, r = ResMethod m ->
      exists t, n = NStr t /\ is_private t = false /\ inst_lookup s t = Some m /\ is_method m = true /\ exposed s m = true) /\
@@ -157,7 +159,7 @@ Proof.
   destruct (match class_lookup s t with Some m => is_prop m | None => false end) eqn:Eb;
     [inversion H; repeat split; intros; try discriminate; exfalso; eauto|].
   assert (HOOKS : forall h m a, In (m, a) (hook_effect q s h) ->
-     q_hooks_run q = true /\ a = AHook /\ In m (s_members s) /\ (exists h', m_kind m = KHook h') /\
+     hooks_on q = true /\ a = AHook /\ In m (s_members s) /\ (exists h', m_kind m = KHook h') /\
      exists t0, NStr t = NStr t0 /\ is_private t0 = false).
   { intros h m a Hin. apply hook_effect_in in Hin. destruct Hin as [A [B [C D]]]. repeat split; auto. exists t. auto. }
   destruct (inst_lookup s t) as [m0|] eqn:El.
@@ -356,8 +358,8 @@ Proof.
   destruct n as [t|]; [|reflexivity].
   destruct (is_private t); [reflexivity|].
   destruct (match class_lookup s t with Some m => is_prop m | None => false end); [reflexivity|].
-  assert (E0 : (if q_hooks_run q then @nil effect else []) = []) by (destruct (q_hooks_run q); reflexivity).
-  rewrite E0.
+  assert (E0 : forall b : bool, (if b then @nil effect else []) = []) by (intros b; destruct b; reflexivity).
+  rewrite !E0.
   destruct (inst_lookup s t) as [m|] eqn:El.
   - destruct (m_kind m) eqn:Ek; try reflexivity.
     destruct class_exposed, callable; try reflexivity.
